@@ -296,7 +296,8 @@ package keyvalue
 // ---- file handles (file.go) ----
 
 //@ spec fRec(f *file) := f.fileData.runOnceFileRecord
-//@ spec fileInv(f *file) := f != nil && f.fileData != nil && f.fileData.fs != nil && roInv(fRec(f)) && f.offset >= 0
+//@ spec fsOK(fs *FS) := fsInv(fs) && (isMem(fs) || isSerial(fs))
+//@ spec fileInv(f *file) := f != nil && f.fileData != nil && fsOK(f.fileData.fs) && VP(f.fileData.path) && roInv(fRec(f)) && f.offset >= 0
 //@ spec hData(f *file) := ite(fRec(f).dataDone == 1, fRec(f).data, recDataBlob(fRec(f)))
 //@ spec hDataErr(f *file) := ite(fRec(f).dataDone == 1, fRec(f).dataErr, recDataErr(fRec(f)))
 //@ spec hDataOK(f *file) := implies(hDataErr(f) == nil, blob.blobOK(hData(f)) && !blob.blobLocked(hData(f)) && isType(hData(f), *blob.Bytes)) && (payload(hData(f)) == 0 || allocated(payload(hData(f))))
@@ -405,7 +406,7 @@ package keyvalue
 //@ spec memSameExcept(fs *FS, path string) := mem.sameExcept(ms(fs), path)
 //@ spec memRec(fs *FS, path string) := kvRec(fs, path).(mem.fileRecord)
 //@ spec cacheMono(r *runOnceFileRecord) := roInv(r) && r.record == old(r.record) &&
-//@        implies(old(r.dataDone) == 1, r.data == old(r.data) && r.dataErr == old(r.dataErr)) &&
+//@        implies(old(r.dataDone) == 1, r.dataDone == 1 && r.data == old(r.data) && r.dataErr == old(r.dataErr)) &&
 //@        implies(old(oncedone(r.modeOnce)), oncedone(r.modeOnce) && r.mode == old(r.mode)) &&
 //@        implies(old(oncedone(r.modTimeOnce)), oncedone(r.modTimeOnce) && r.modTime == old(r.modTime))
 //@ spec srcKept(src FileRecord) := implies(isType(src, *fileData), cacheMono(src.(*fileData).runOnceFileRecord)) &&
@@ -431,7 +432,7 @@ package keyvalue
 //@   modifies world(), mapOf(ms(fs).records), held(ms(fs).mu),
 //@            fdCache(file).data, fdCache(file).dataErr, fdCache(file).dataDone, oncedone(fdCache(file).dataOnce),
 //@            fdCache(file).mode, oncedone(fdCache(file).modeOnce), fdCache(file).modTime, oncedone(fdCache(file).modTimeOnce)
-//@   ensures "inv" fsInv(fs)
+//@   ensures "inv" fsInv(fs) && held(ms(fs).mu) == old(held(ms(fs).mu))
 //@   ensures "src-kept" srcKept(file)
 //@   ensures "data-error" implies(file != nil && isReg(old(srcMode(file))) && old(srcDataErr(file)) != nil, err == old(srcDataErr(file)) && world() == old(world()) && implies(isMem(fs), memSame(fs)))
 //@   ensures "mem-data-error" [C14] implies(isMem(fs) && file != nil && old(srcDataErr(file)) != nil, err != nil && memSame(fs))
@@ -445,11 +446,7 @@ package keyvalue
 //@   nopanic
 
 //@ func (f *fileData) save() (err error)
-//@   props C14
-//@   requires f != nil && f.fs != nil
-//@   modifies world()
-//@   ensures "saved" err == old(ret("keyvalue.(*FS).setFile", 0, f.fs, f.path, f)) && world() == old(worldAfter("keyvalue.(*FS).setFile", f.fs, f.path, f))
-//@   nopanic
+//@   inline
 
 //@ func (f *file) updateModTime()
 //@   requires f != nil && f.fileData != nil
@@ -468,7 +465,7 @@ package keyvalue
 //@   requires "no-alias" implies(hDataErr(f) == nil && isType(p, *blob.Bytes) && isType(hData(f), *blob.Bytes), payload(p) != payload(hData(f)) &&
 //@                     (ref(p.(*blob.Bytes).bytes) != ref(hData(f).(*blob.Bytes).bytes) || ref(p.(*blob.Bytes).bytes) == 0))
 //@   requires "size-bound" off + blob.blobLen(p) <= 1<<40
-//@   modifies fRec(f).data, fRec(f).dataErr, fRec(f).dataDone, oncedone(fRec(f).dataOnce), fRec(f).mode, oncedone(fRec(f).modeOnce), f.fileData.modTimeOverride, world(),
+//@   modifies fRec(f).data, fRec(f).dataErr, fRec(f).dataDone, oncedone(fRec(f).dataOnce), fRec(f).mode, oncedone(fRec(f).modeOnce), fRec(f).modTime, oncedone(fRec(f).modTimeOnce), f.fileData.modTimeOverride, world(), mapOf(ms(f.fileData.fs).records),
 //@            hData(f).(*blob.Bytes).bytes, hData(f).(*blob.Bytes).length, elems(hData(f).(*blob.Bytes).bytes), gint("blobLen", payload(hData(f))), garr("blobAt", payload(hData(f)))
 //@   ensures "dir" implies(old(fIsDir(f)), n == 0 && isPathError(err) && errIs(err, hackpadfs.ErrIsDir) && pathOf(err) == f.path)
 //@   ensures "neg" implies(!old(fIsDir(f)) && off < 0, n == 0 && isPathError(err) && pathOf(err) == f.path)
@@ -483,6 +480,9 @@ package keyvalue
 //@   ensures "n-range" 0 <= n && n <= old(blob.blobLen(p))
 //@   ensures "fail-unchanged" implies(err != nil && n == 0 && (old(fIsDir(f)) || off < 0 || old(hDataErr(f)) != nil), implies(old(hDataErr(f)) == nil, sameContent(old(hData(f)))))
 //@   ensures "inv" fileInv(f) && f.offset == old(f.offset) && f.closed == old(f.closed)
+//@   ensures "accepted" [C14] implies(err == nil && n > 0 && isSerial(f.fileData.fs), old(storeSetErr(fsStore(f.fileData.fs), f.fileData.path, f.fileData)) == nil)
+//@   ensures "namespace" [C17 C03] implies(isMem(f.fileData.fs), memSameExcept(f.fileData.fs, f.fileData.path))
+//@   ensures "no-resurrect" [C17] implies(isMem(f.fileData.fs) && !old(kvHas(f.fileData.fs, f.fileData.path)), !kvHas(f.fileData.fs, f.fileData.path))
 //@   nopanic
 
 //@ spec isAppend(f *file) := f.flag&hackpadfs.FlagAppend != 0
@@ -495,7 +495,7 @@ package keyvalue
 //@   props C02 C17 C14
 //@   requires fileInv(f) && hDataOK(f) && blob.blobOK(p) && !blob.blobLocked(p) && pNoAlias(f, p)
 //@   requires "size-bound" f.offset + blob.blobLen(p) <= 1<<40 && liveSize(fRec(f)) + blob.blobLen(p) <= 1<<40
-//@   modifies fRec(f).data, fRec(f).dataErr, fRec(f).dataDone, oncedone(fRec(f).dataOnce), fRec(f).mode, oncedone(fRec(f).modeOnce), f.fileData.modTimeOverride, world(), f.offset,
+//@   modifies fRec(f).data, fRec(f).dataErr, fRec(f).dataDone, oncedone(fRec(f).dataOnce), fRec(f).mode, oncedone(fRec(f).modeOnce), fRec(f).modTime, oncedone(fRec(f).modTimeOnce), f.fileData.modTimeOverride, world(), mapOf(ms(f.fileData.fs).records), f.offset,
 //@            hData(f).(*blob.Bytes).bytes, hData(f).(*blob.Bytes).length, elems(hData(f).(*blob.Bytes).bytes), gint("blobLen", payload(hData(f))), garr("blobAt", payload(hData(f)))
 //@   ensures "closed" implies(f.closed, n == 0 && closedError(err, f) && f.offset == old(f.offset) && implies(old(hDataErr(f)) == nil, sameContent(old(hData(f)))))
 //@   ensures "dir" implies(!f.closed && old(fIsDir(f)), n == 0 && isPathError(err) && errIs(err, hackpadfs.ErrIsDir))
@@ -515,7 +515,7 @@ package keyvalue
 //@   props C02 C17 C14
 //@   requires fileInv(f) && hDataOK(f) && blob.blobOK(p) && !blob.blobLocked(p) && pNoAlias(f, p)
 //@   requires "size-bound" off + blob.blobLen(p) <= 1<<40
-//@   modifies fRec(f).data, fRec(f).dataErr, fRec(f).dataDone, oncedone(fRec(f).dataOnce), fRec(f).mode, oncedone(fRec(f).modeOnce), f.fileData.modTimeOverride, world(),
+//@   modifies fRec(f).data, fRec(f).dataErr, fRec(f).dataDone, oncedone(fRec(f).dataOnce), fRec(f).mode, oncedone(fRec(f).modeOnce), fRec(f).modTime, oncedone(fRec(f).modTimeOnce), f.fileData.modTimeOverride, world(), mapOf(ms(f.fileData.fs).records),
 //@            hData(f).(*blob.Bytes).bytes, hData(f).(*blob.Bytes).length, elems(hData(f).(*blob.Bytes).bytes), gint("blobLen", payload(hData(f))), garr("blobAt", payload(hData(f)))
 //@   ensures "closed" implies(f.closed, n == 0 && closedError(err, f) && implies(old(hDataErr(f)) == nil, sameContent(old(hData(f)))))
 //@   ensures "append-refused" implies(!f.closed && isAppend(f), n == 0 && isPathError(err) && pathOf(err) == f.path && implies(old(hDataErr(f)) == nil, sameContent(old(hData(f)))))
@@ -532,7 +532,7 @@ package keyvalue
 //@   props C02 C17 C14
 //@   requires fileInv(f) && hDataOK(f) && sizeConsistent(f)
 //@   requires "size-bound" size <= 1<<40
-//@   modifies fRec(f).data, fRec(f).dataErr, fRec(f).dataDone, oncedone(fRec(f).dataOnce), fRec(f).mode, oncedone(fRec(f).modeOnce), f.fileData.modTimeOverride, world(),
+//@   modifies fRec(f).data, fRec(f).dataErr, fRec(f).dataDone, oncedone(fRec(f).dataOnce), fRec(f).mode, oncedone(fRec(f).modeOnce), fRec(f).modTime, oncedone(fRec(f).modTimeOnce), f.fileData.modTimeOverride, world(), mapOf(ms(f.fileData.fs).records),
 //@            hData(f).(*blob.Bytes).bytes, hData(f).(*blob.Bytes).length, elems(hData(f).(*blob.Bytes).bytes), gint("blobLen", payload(hData(f))), garr("blobAt", payload(hData(f)))
 //@   ensures "closed" implies(f.closed, closedError(err, f) && implies(old(hDataErr(f)) == nil, sameContent(old(hData(f)))))
 //@   ensures "dir" implies(!f.closed && old(fIsDir(f)), isPathError(err) && errIs(err, hackpadfs.ErrIsDir) && pathOf(err) == f.path && implies(old(hDataErr(f)) == nil, sameContent(old(hData(f)))))
@@ -587,7 +587,7 @@ package keyvalue
 //@   props C02 C17 C14
 //@   requires fileInv(f) && hDataOK(f) && bufNoAlias(f, p)
 //@   requires "size-bound" f.offset + len(p) <= 1<<40 && liveSize(fRec(f)) + len(p) <= 1<<40
-//@   modifies fRec(f).data, fRec(f).dataErr, fRec(f).dataDone, oncedone(fRec(f).dataOnce), fRec(f).mode, oncedone(fRec(f).modeOnce), f.fileData.modTimeOverride, world(), f.offset,
+//@   modifies fRec(f).data, fRec(f).dataErr, fRec(f).dataDone, oncedone(fRec(f).dataOnce), fRec(f).mode, oncedone(fRec(f).modeOnce), fRec(f).modTime, oncedone(fRec(f).modTimeOnce), f.fileData.modTimeOverride, world(), mapOf(ms(f.fileData.fs).records), f.offset,
 //@            hData(f).(*blob.Bytes).bytes, hData(f).(*blob.Bytes).length, elems(hData(f).(*blob.Bytes).bytes), gint("blobLen", payload(hData(f))), garr("blobAt", payload(hData(f)))
 //@   ensures "closed" implies(f.closed, n == 0 && closedError(err, f) && f.offset == old(f.offset) && implies(old(hDataErr(f)) == nil, sameContent(old(hData(f)))))
 //@   ensures "dir" implies(!f.closed && old(fIsDir(f)), n == 0 && isPathError(err) && errIs(err, hackpadfs.ErrIsDir))
@@ -604,7 +604,7 @@ package keyvalue
 //@   props C02 C17 C14
 //@   requires fileInv(f) && hDataOK(f) && bufNoAlias(f, p)
 //@   requires "size-bound" off + len(p) <= 1<<40
-//@   modifies fRec(f).data, fRec(f).dataErr, fRec(f).dataDone, oncedone(fRec(f).dataOnce), fRec(f).mode, oncedone(fRec(f).modeOnce), f.fileData.modTimeOverride, world(),
+//@   modifies fRec(f).data, fRec(f).dataErr, fRec(f).dataDone, oncedone(fRec(f).dataOnce), fRec(f).mode, oncedone(fRec(f).modeOnce), fRec(f).modTime, oncedone(fRec(f).modTimeOnce), f.fileData.modTimeOverride, world(), mapOf(ms(f.fileData.fs).records),
 //@            hData(f).(*blob.Bytes).bytes, hData(f).(*blob.Bytes).length, elems(hData(f).(*blob.Bytes).bytes), gint("blobLen", payload(hData(f))), garr("blobAt", payload(hData(f)))
 //@   ensures "closed" implies(f.closed, n == 0 && closedError(err, f) && implies(old(hDataErr(f)) == nil, sameContent(old(hData(f)))))
 //@   ensures "append-refused" implies(!f.closed && isAppend(f), n == 0 && err != nil && implies(old(hDataErr(f)) == nil, sameContent(old(hData(f)))))
